@@ -8,7 +8,6 @@ Spec: `Pc.Spec.phi x a` (Legendre sum), `Pc.Spec.p i` (i-th prime).
 import PcProofs.PhiCacheTop
 import PcProofs.PhiCacheVec
 import PcProps.C17Sieve
-import PcGen.SrcMirrorPhiData
 
 namespace Pc.C07Cache
 open Pc.Spec Pc.PhiCacheL2 Pc.PhiCacheProofs Pc.PhiAlgProofs
@@ -42,6 +41,11 @@ theorem cache_bits_counts (st : State) (h : Inv st) (l w : ℕ) (h9 : 9 ≤ l) (
         ∀ j, 1 ≤ j → j ≤ l → ¬ p j ∣ 240 * w + wheelNum k)) ∧
     cntAt (st.sieve.getD l #[]) w = phi (240 * w - 1) l ∧ cntAt (st.sieve.getD l #[]) w < 2 ^ 32 :=
   Pc.PhiCacheProofs.cache_bits_counts h h9 hl hw
+
+/-- every `bits` member of a sieved level fits `uint64_t` (the model's naturals are the machine words) -/
+theorem cache_bits_fit_u64 (st : State) (h : Inv st) (l w : ℕ) (h9 : 9 ≤ l) (hl : l ≤ st.maxACached)
+    (hw : w < st.maxXSize) : bitsAt (st.sieve.getD l #[]) w < 2 ^ 64 :=
+  Pc.PhiCacheProofs.cache_bits_fit_u64 h h9 hl hw
 
 /-- **`phi_cache(x, a) = φ(x, a)` for every cached `(x, a)`** (phi.cpp:205-212) -/
 theorem phi_cache_correct (st : State) (h : Inv st) (x a : ℕ) (hc : st.isCached x a = true) :
@@ -93,21 +97,6 @@ theorem phi_cpp_correct (P : PhiTop) (x a : ℤ) (hP : TopOK P x.toNat a.toNat) 
     (works : List (List ℕ)) (hworks : works.flatten.Perm (List.range' 9 (a.toNat - 8))) :
     phiCpp P est works x a = phiZ x a := phiCpp_correct P x a hP est works hworks
 
-/-- src/phi_vector.cpp's copy of the class is the SAME TEXT (current /repo, normalised statements) as the one in
-    src/phi.cpp for `init_cache`, `phi_cache`, `is_cached`, `is_pix`; `phi<SIGN>` differs by a cast and `std::`,
-    the constructor by `max_x = isqrt(x)` only -/
-theorem phiVector_cache_same_text :
-    Pc.SrcMirror.Phi.Cur.phi_vector__PhiCache_init_cache = Pc.SrcMirror.Phi.Cur.phi__PhiCache_init_cache ∧
-    Pc.SrcMirror.Phi.Cur.phi_vector__PhiCache_phi_cache = Pc.SrcMirror.Phi.Cur.phi__PhiCache_phi_cache ∧
-    Pc.SrcMirror.Phi.Cur.phi_vector__PhiCache_is_cached = Pc.SrcMirror.Phi.Cur.phi__PhiCache_is_cached ∧
-    Pc.SrcMirror.Phi.Cur.phi_vector__PhiCache_is_pix = Pc.SrcMirror.Phi.Cur.phi__PhiCache_is_pix ∧
-    Pc.SrcMirror.Phi.Cur.phi_vector__PhiCache_phi =
-      (Pc.SrcMirror.Phi.Cur.phi__PhiCache_phi.set 0 "if ( x <= ( int64_t ) primes_ [ a ] ) return SIGN ;").set 8
-        "larger_c = std :: max ( c , larger_c ) ;" ∧
-    Pc.SrcMirror.Phi.Cur.phi_vector__PhiCache_PhiCache =
-      Pc.SrcMirror.Phi.Cur.phi__PhiCache_PhiCache.set 4 "uint64_t max_x = isqrt ( x ) ;" := by
-  exact ⟨rfl, rfl, rfl, rfl, rfl, rfl⟩
-
 /-- **`phi_vector(x, a, primes, pi)` with its real cache**: `phi[i] = φ(x, i − 1)` for `1 ≤ i ≤ a`
     (connects `C17Sieve.phiVector_correct`, whose inner function was a parameter, to the bit-level cache) -/
 theorem phiVector_cpp_correct (E : PhiEnv) (hprime0 : E.prime 0 = 0) (hprimes : ∀ i, 1 ≤ i → E.prime i = p i)
@@ -151,6 +140,7 @@ end Pc.C07Cache
 #print axioms Pc.C07Cache.cache_constructor_geometry
 #print axioms Pc.C07Cache.init_cache_invariant
 #print axioms Pc.C07Cache.cache_bits_counts
+#print axioms Pc.C07Cache.cache_bits_fit_u64
 #print axioms Pc.C07Cache.phi_cache_correct
 #print axioms Pc.C07Cache.phi_cache_in_range
 #print axioms Pc.C07Cache.cross_off_no_overflow
@@ -159,5 +149,4 @@ end Pc.C07Cache
 #print axioms Pc.C07Cache.phi_real_cache_refines
 #print axioms Pc.C07Cache.phi_real_cache_correct
 #print axioms Pc.C07Cache.phi_cpp_correct
-#print axioms Pc.C07Cache.phiVector_cache_same_text
 #print axioms Pc.C07Cache.phiVector_cpp_correct
